@@ -431,6 +431,18 @@ func fieldKeyRule(c *core.Ctx) {
 // first comma-separated part of the `hseq` tag is non-empty and r is that part, "name" when the path established that it
 // is empty and r is the field name, "" otherwise. The second result is the polarity of the emptiness test on the path.
 func fieldKeyKind(p *ir.Path, r *ir.Term) (string, int) {
+	// the key asked from the entry itself: a call of Type.FieldKey too deep to be looked into here (its body is
+	// decided by the rule `fieldkey`)
+	if r.Op == "call" && len(r.Args) == 2 && r.Args[0].Op == "fn" && r.Args[0].Fn != nil {
+		if f := r.Args[0].Fn; f.Name() == "FieldKey" && f.Signature.Recv() != nil {
+			if o := f.Origin(); o != nil {
+				f = o
+			}
+			if f.Pkg != nil && strings.HasSuffix(f.Pkg.Pkg.Path(), "/hseq") {
+				return "call", 0
+			}
+		}
+	}
 	// tag := strings.Split(t.StructField.Tag.Get("hseq"), ",")[0]
 	isGet := func(g *ir.Term) bool {
 		return g.Op == "pure" && strings.HasSuffix(g.Aux, "StructTag).Get") && len(g.Args) == 2 && g.Args[1].Aux == `"hseq"` &&
@@ -802,6 +814,7 @@ func namesOrderRule(c *core.Ctx) {
 		c.Fail("names-order", "hseq.New", fn.Pos(), "the full listing is not computed by the unfolding function")
 		return
 	}
+	listing0 := listing
 	for _, p := range an.AllPaths() {
 		listing = nil
 		for i := range p.Steps {
@@ -827,6 +840,15 @@ func namesOrderRule(c *core.Ctx) {
 				listing = an.Start[p.From].MemAt(cell)
 			} else {
 				listing = an.Start[p.From].Reg(callInstr)
+				if listing == nil && cell == nil {
+					// the call was made in a helper that has returned since (its registers are gone); the loop runs
+					// in another helper that received the listing as a parameter: the parameter whose value, on
+					// every path entering the loop, is what the unfolding function returned on that path
+					listing = listingParamAt(an, p.From, uf)
+				}
+				if listing == nil && cell == nil {
+					listing = listing0
+				}
 			}
 		}
 		if listing == nil {
@@ -898,6 +920,43 @@ func namesOrderRule(c *core.Ctx) {
 	} else if ok {
 		c.Fail("names-order", "hseq.New", fn.Pos(), "expected an empty-names path and a positional fill (found %d / %d)", nEmpty, nStore)
 	}
+}
+
+// listingParamAt: the term that stands, at loop header h, for the parameter of the function the loop is written in
+// whose value on every path entering the loop from outside is the result of the call of uf made on that path.
+func listingParamAt(an *ir.Analysis, h *ssa.BasicBlock, uf *ssa.Function) *ir.Term {
+	inLoop := ir.LoopBlocks(h)
+	for _, prm := range h.Parent().Params {
+		j := an.Start[h].Reg(prm)
+		if j == nil {
+			continue
+		}
+		n, good := 0, true
+		for from, ps := range an.Segs {
+			if from != nil && inLoop[from] {
+				continue
+			}
+			for _, p := range ps {
+				if p.To != h {
+					continue
+				}
+				var res *ir.Term
+				for _, st := range p.Events(ir.KCall) {
+					if st.Static == uf {
+						res = st.R
+					}
+				}
+				if from != nil || res == nil || p.End == nil || !ir.Same(p.End.Reg(prm), res) {
+					good = false
+				}
+				n++
+			}
+		}
+		if good && n > 0 {
+			return j
+		}
+	}
+	return nil
 }
 
 // appendedOne: v is the variadic argument slice of an append holding exactly one element stored on p; returns it.
